@@ -1,6 +1,6 @@
-(* C13 -- proofs for the life-cycle scenarios of C13_Life.v: repeat-constructor, padStringsToSameLength and every SEQUENCE of
-   operations on three shared objects are Ok (memory-safe, terminating) and return the textbook value; the pairing verdict of
-   every scenario is true. *)
+(* C13 -- proofs for the life-cycle scenarios of C13_Life.v: repeat-constructor and padStringsToSameLength are Ok (memory-safe,
+   terminating) and return the textbook value; the pairing verdict of every scenario is true; closure of the well-formed byte
+   strings (OKS) under the textbook functions.  The operation SEQUENCES are proved in C13_Chain.v. *)
 From Coq Require Import NArith ZArith Bool List Lia ZifyBool.
 From CppUVerif Require Import lib.Str C13_Text C13_Alloc C13_Model C13_Proofs C13_Replace C13_Printable C13_Concat C13_Atoi C13_Main
                               C13_Pool C13_PoolProofs C13_Life.
@@ -176,56 +176,6 @@ Proof. unfold pad_bufs, t_pad. destruct (Nat.ltb (length b) (length a)); reflexi
 Lemma chr_ok c : chr c = true -> c <> 0 /\ c < 256.
 Proof. unfold chr. intro H. apply andb_true_iff in H. destruct H as [H1 H2]. split; lia. Qed.
 
-Lemma mstep_ok strs q : Forall OKS strs -> valid_sop q = true ->
-  mstep (map cs strs) q = Ok (map cs (t_sstep strs q)) /\ Forall OKS (t_sstep strs q).
-Proof.
-  intros F V.
-  assert (G : forall i, OKS (nth i strs [])) by (intro i; apply Forall_nth_d; [apply OKS_nil | exact F]).
-  destruct q; cbn [valid_sop] in V; split_valid V; cbn [mstep t_sstep]; rewrite ?getb_map.
-  - (* set *) pose proof (OKS_nonul a V0) as Ka. unfold cs. rewrite (newFrom_ok a []) by apply Ka. cbn [bind].
-    rewrite (newFrom_ok a []) by apply Ka. cbn [bind]. split; [apply fin_upd | apply Forall_updl; assumption].
-  - (* asg *) destruct (Nat.eqb i j) eqn:E.
-    + apply Nat.eqb_eq in E. subst j. rewrite updl_same. split; [reflexivity | exact F].
-    + unfold cs. rewrite (newFrom_ok (nth j strs []) []) by apply G. cbn [bind]. split; [apply fin_upd | apply Forall_updl; [apply G | exact F]].
-  - (* app *) unfold cs. rewrite (append_ok (nth i strs []) (nth j strs []) [] []) by apply G. cbn [bind]. rewrite app_assoc.
-    split; [apply fin_upd | apply Forall_updl; [apply OKS_app; apply G | exact F]].
-  - (* appc *) pose proof (OKS_nonul a V0) as Ka. unfold cs. rewrite (append_ok (nth i strs []) a [] []) by (try apply G; apply Ka). cbn [bind].
-    rewrite app_assoc. split; [apply fin_upd | apply Forall_updl; [apply OKS_app; [apply G | exact Ka] | exact F]].
-  - (* low *) unfold cs. rewrite (lowerCase_ok (nth j strs []) []) by apply G. cbn [bind].
-    rewrite (newFrom_ok (lower (nth j strs [])) []) by (apply OKS_lower; apply G). cbn [bind].
-    split; [apply fin_upd | apply Forall_updl; [apply OKS_lower; apply G | exact F]].
-  - (* sub *) unfold cs. destruct (subString_ok (nth j strs []) [] b m (proj1 (G j))) as [buf [E C]]. rewrite E. cbn [bind].
-    destruct (cstr_of_inv _ _ C) as [r [Eb Hn]]. rewrite Eb, newFrom_ok by exact Hn. cbn [bind].
-    split; [apply fin_upd | apply Forall_updl; [apply OKS_substr; apply G | exact F]].
-  - (* rc *) destruct (chr_ok _ V0) as [Z B]. unfold cs. rewrite (replaceChar_ok (nth i strs []) c1 c2) by apply G. cbn [bind].
-    split; [apply fin_upd | apply Forall_updl; [apply OKS_repl_char; [apply G | exact Z | exact B] | exact F]].
-  - (* rs *) pose proof (OKS_nonul a V1) as Ka. pose proof (OKS_nonul b V0) as Kb.
-    rewrite (replaceStr_exact (nth i strs []) a b) by (try apply G; try apply Ka; apply Kb). cbn [bind]. unfold cs at 1.
-    split; [apply fin_upd | apply Forall_updl; [apply OKS_replace; [apply G | exact Kb] | exact F]].
-  - (* prt *) destruct (printable_ok (nth j strs []) (proj2 (G j)) (proj1 (G j))) as [buf [E C]]. rewrite E. cbn [bind].
-    destruct (cstr_of_inv _ _ C) as [r [Eb Hn]]. rewrite Eb, newFrom_ok by exact Hn. cbn [bind].
-    split; [apply fin_upd | apply Forall_updl; [apply OKS_printable; apply G | exact F]].
-  - (* pad *) destruct (chr_ok _ V0) as [Z B]. destruct (Nat.eqb i j) eqn:E; [split; [reflexivity | exact F]|].
-    unfold cs at 1 2. rewrite (pad_ok (nth i strs []) [] (nth j strs []) [] ch) by (try apply G; exact Z). cbn [bind].
-    rewrite pad_bufs_cs. cbn [fst snd]. destruct (OKS_pad (nth i strs []) (nth j strs []) ch (G i) (G j) Z B) as [P1 P2].
-    split; [f_equal; rewrite !(updl_map cs); reflexivity | apply Forall_updl; [exact P2 | apply Forall_updl; [exact P1 | exact F]]].
-  - (* fmt *) pose proof (OKS_app a b (OKS_nonul a V1) (OKS_nonul b V0)) as Kab.
-    rewrite format_ok by apply Kab. cbn [bind]. rewrite (newFrom_ok (a ++ b) []) by apply Kab. cbn [bind].
-    split; [apply fin_upd | apply Forall_updl; assumption].
-  - (* rep *) pose proof (OKS_nonul a V0) as Ka. unfold cs. rewrite (newRepeat_ok a [] k) by apply Ka. cbn [bind].
-    rewrite (newFrom_ok (t_concat_rep a k) []) by (apply OKS_concat_rep; exact Ka). cbn [bind].
-    split; [apply fin_upd | apply Forall_updl; [apply OKS_concat_rep; exact Ka | exact F]].
-  - (* plus *) unfold cs. rewrite (plus_ok (nth j strs []) (nth k strs []) [] []) by apply G. cbn [bind]. rewrite app_assoc.
-    rewrite (newFrom_ok (nth j strs [] ++ nth k strs []) []) by (apply OKS_app; apply G). cbn [bind].
-    split; [apply fin_upd | apply Forall_updl; [apply OKS_app; apply G | exact F]].
-Qed.
-Lemma mrun_ok ops : forall strs, Forall OKS strs -> forallb valid_sop ops = true ->
-  mrun (map cs strs) ops = Ok (map cs (fold_left t_sstep ops strs)) /\ Forall OKS (fold_left t_sstep ops strs).
-Proof.
-  induction ops as [|q ops IH]; intros strs F V; [split; [reflexivity | exact F]|].
-  cbn [forallb] in V. apply andb_true_iff in V. destruct V as [Vq V]. cbn [mrun fold_left].
-  destruct (mstep_ok strs q F Vq) as [E F']. rewrite E. cbn [bind]. apply IH; assumption.
-Qed.
 Lemma cstrs_cs strs : Forall OKS strs -> cstrs (map cs strs) = Some strs.
 Proof.
   induction strs as [|s strs IH]; intro F; [reflexivity|]. inversion F as [|? ? Hs Fs]. subst. cbn [map cstrs]. unfold cs at 1.
@@ -248,12 +198,6 @@ Proof.
   change [cs (fst (t_pad a b ch)); cs (snd (t_pad a b ch))] with (map cs [fst (t_pad a b ch); snd (t_pad a b ch)]).
   rewrite cstrs_cs by (constructor; [exact P1 | constructor; [exact P2 | constructor]]). reflexivity.
 Qed.
-Lemma eval_seq ops : forallb valid_sop ops = true -> eval_scn (SSeq ops) = expected_scn (SSeq ops).
-Proof.
-  intro V. cbn [eval_scn expected_scn]. change pool0 with (map cs [[]; []; []]).
-  destruct (mrun_ok ops [[]; []; []]) as [E F]; [repeat (constructor; [apply OKS_nil|]); constructor | exact V |].
-  rewrite E. cbn [vlist]. rewrite cstrs_cs by exact F. reflexivity.
-Qed.
 Lemma pairing_scn_ok s : pairing_scn s = true.
 Proof. destruct s; cbn [pairing_scn]; try reflexivity; [apply pairing_ok | apply pad_paired]. Qed.
 (* the scenarios of C13_Model.v are scenarios of this language with the same observation and the same oracle *)
@@ -261,11 +205,6 @@ Lemma scn_embeds o : run_scn (SOp o) = run o /\ valid_scn (SOp o) = valid o /\ f
 Proof. split; [reflexivity | split; [reflexivity | intro ob; reflexivity]]. Qed.
 
 (* ---------------- the hypotheses are satisfiable *)
-Example ex_seq_valid : valid_scn (SSeq [QSet 0 [97;98]; QSet 1 [119;120;121;122]; QPad 0 1 46; QAppC 0 [33]; QPad 0 1 45]) = true.
-Proof. reflexivity. Qed.
-Example ex_seq_run : run_scn (SSeq [QSet 0 [97;98]; QSet 1 [119;120;121;122]; QPad 0 1 46; QAppC 0 [33]; QPad 0 1 45])
-  = {| o_val := VL [[46;46;97;98;33]; [45;119;120;121;122]; []]; o_ref := true; o_paired := true |}.
-Proof. vm_compute. reflexivity. Qed.
 Example ex_pad_run : run_scn (SPad [97] [98;99;100] 46) = {| o_val := VL [[46;46;97]; [98;99;100]]; o_ref := true; o_paired := true |}.
 Proof. vm_compute. reflexivity. Qed.
 Example ex_pad_wrong : paired (pad_log_wrong 1 3) = false.
